@@ -161,6 +161,24 @@ def impl_checks(ctx, cases):
         if not np.allclose(at_nodes, rf, rtol=1e-12, atol=1e-15) or before != 0.0 or after != float(rf[-1]):
             bad("recovery interpolator does not reproduce recovery at the simulated times / 0 before / final value after", c,
                 dict(max_node_diff=float(np.abs(at_nodes - rf).max()), before=before, after=after, final=float(rf[-1])))
+    # ---------------- the interpolator on single-precision / int32 grids whose first two times coincide - as they do once a float32 grid
+    # is shifted by a large time origin (fixed 2026-10, 69d4598: scipy's lookup for such dtypes returned NaN there)
+    from bluebonnet.flow import IdealReservoir as _Ideal
+    for tg_, nm_ in (((np.array([0, 1e-3, .1, .2, .5, 1.2]) + 1e5).astype(np.float32), "float32 grid shifted by 1e5"), (np.array([0, 0, 1, 2, 5, 9], dtype=np.int32), "int32 day counts, first day repeated"),
+                     ((np.array([0, 1e-3, .1, .2, .5, 1.2]) - 3e5).astype(np.float32), "float32 grid shifted by -3e5")):
+        r_ = _Ideal(30, 1000.0, 8000.0, None)
+        r_.simulate(tg_.copy())
+        rf_ = np.array(r_.recovery_factor(), float)
+        it_ = r_.recovery_factor_interpolator()
+        at_ = np.asarray(it_(tg_.astype(np.float64)), float)
+        ev += 1
+        first_ = float(it_(float(tg_[0]) - 1.0))
+        # at a repeated time the lookup may return either of the two recoveries stored for it
+        lo_ = np.array([rf_[np.nonzero(tg_ == q_)[0]].min() for q_ in tg_]); hi_ = np.array([rf_[np.nonzero(tg_ == q_)[0]].max() for q_ in tg_])
+        if not (np.all(np.isfinite(at_)) and np.all(at_ >= lo_ - 1e-12) and np.all(at_ <= hi_ + 1e-12) and first_ == 0.0 and float(it_(float(tg_[-1]) + 1.0)) == float(rf_[-1])):
+            ctx.violations.append(dict(what="recovery interpolator does not reproduce recovery at the simulated times / 0 before / final value after (time grid that is not float64 and whose first two entries coincide)",
+                                       key="interp-nonfloat64-repeated-first", input=dict(kind="ideal", nx=30, time_grid=nm_, times=[float(x) for x in tg_]),
+                                       observed=dict(at_simulated_times=[None if x != x else float(x) for x in at_], recovery=[float(x) for x in rf_], before_first=first_)))
     # time grids that are not float64 (day counts as integers, float32 from a file): the frac-face pressure must not inherit the
     # grid's dtype - scalar setting == constant schedule exactly, and shifting the grid by half a day changes nothing
     from bluebonnet.flow import FlowProperties
